@@ -65,9 +65,10 @@ type ccActor struct {
 }
 
 type ccSched struct {
-	mu     sync.Mutex
-	actors map[string]*ccActor
-	clock  int
+	stagger *rand.Rand
+	mu      sync.Mutex
+	actors  map[string]*ccActor
+	clock   int
 }
 
 func (s *ccSched) tap(actor, repo, call, arg string, post bool, err error) {
@@ -173,7 +174,16 @@ func (s *ccSched) advanceTogether(as []*ccActor, run func(a *ccActor), wait, lim
 		a.calls = append(a.calls, a.pending)
 		a.pending = ""
 	}
-	for _, a := range ready {
+	// (the second call follows the first after a seeded delay of 0 to 150 microseconds, so that it also arrives while
+	// the first one is in the middle of its critical section)
+	for i, a := range ready {
+		if i > 0 && s.stagger != nil {
+			if d := time.Duration(s.stagger.Intn(16)) * 10 * time.Microsecond; d > 0 {
+				t0 := time.Now()
+				for time.Since(t0) < d {
+				}
+			}
+		}
 		a.release <- struct{}{}
 	}
 	for _, a := range ready {
@@ -340,7 +350,7 @@ func cmdConc(args []string) {
 					cfg.Untagged, cfg.Grace = true, false
 				}
 				srv := NewSrv(cfg, root)
-				sched := &ccSched{actors: map[string]*ccActor{}}
+				sched := &ccSched{actors: map[string]*ccActor{}, stagger: rand.New(rand.NewSource(*seed + int64(nruns)))}
 				srv.S.VerifTapStore(sched.tap)
 				ex := NewExec(cat, srv, *seed)
 				cuts := map[string]any{}
@@ -420,14 +430,18 @@ func cmdConc(args []string) {
 					}
 					sched.clock = 2
 				} else {
-					for oi, ai := range order {
-						if together && len(actors) > 1 {
-							bi := order[(oi+1)%len(order)]
-							if bi == ai {
-								bi = (ai + 1) % len(actors)
-							}
+					for _, ai := range order {
+						// a step is either one store call of one request or (values >= 100: ai + 100*(bi+1), as recorded in
+						// `played`) the pending store calls of two requests released at the same moment
+						bi := -1
+						if ai >= 100 {
+							ai, bi = ai%100, ai/100-1
+						} else if together && len(actors) > 1 && rng.Intn(2) == 0 {
+							bi = (ai + 1 + rng.Intn(len(actors)-1)) % len(actors)
+						}
+						if bi >= 0 {
 							if sched.advanceTogether([]*ccActor{actors[ai], actors[bi]}, run, wait, limbo) {
-								played = append(played, ai, bi)
+								played = append(played, ai+100*(bi+1))
 							}
 							continue
 						}
